@@ -315,7 +315,10 @@ pub fn methods() -> &'static Vec<MethodMeta> {
                     }
                     (n, Some(_)) => {
                         let insert = mi.params.first().map(|p| p.1) == Some("InsertPoint");
-                        if mi.file == "autogen_terminator.rs" {
+                        // by what the method emits (its opcode against the specification's lists), not by
+                        // the source file it happens to live in or the way its return type is spelled
+                        let is_term = crate::refclass::is_block_terminator(gi.map(|g| g.opname.as_str()).unwrap_or(""));
+                        if is_term {
                             if insert {
                                 MKind::TerminatorInsert
                             } else {
